@@ -22,6 +22,9 @@ import traceback
 VERIF = os.path.dirname(os.path.dirname(os.path.abspath(__file__)))
 
 
+MAX_BAD_PER_KIND = int(os.environ.get("VERIF_MAX_BAD_PER_KIND", "3"))
+
+
 class Collector:
     """collects obligations for one configuration"""
 
@@ -38,11 +41,19 @@ class Collector:
         self.reach_checked = 0
         self.nontrivial = set()
         self.functions = set()
+        self._bad = {}
+        self.skipped = 0
 
     # -- obligations
     def check(self, ctx, claim, site, kind, shape=None, witness=None, desc=None, timeout=None, extra=()):
         from . import engine as E
 
+        # on a broken tree the same obligation family fails over and over (and sat/unknown answers are the slow
+        # ones): after a few failures of one (site, kind) in this configuration the rest are skipped, not counted
+        key = (site, kind)
+        if self._bad.get(key, 0) >= MAX_BAD_PER_KIND:
+            self.skipped += 1
+            return False
         self.obligations += 1
         r = E.prove(ctx, claim, timeout=timeout, extra=extra)
         self.vc_s += r.secs
@@ -56,6 +67,7 @@ class Collector:
         rec = dict(site=site, kind=kind, shape=shape or {}, config=self.cfg, desc=desc,
                    witness=E.jsonable(witness) if witness is not None else None,
                    model=E.jsonable(E.model_dict(r.model)), claim=str(r.claim)[:600])
+        self._bad[key] = self._bad.get(key, 0) + 1
         if r.status == "sat":
             self.violations.append(rec)
         else:
